@@ -295,11 +295,6 @@ func report(prop, tier string, seed int, jobs []*Job, rep *replayer, P *Program,
 			lines = append(lines, fmt.Sprintf("INCONCLUSIVE property=%s harness=%s %d solver disagreements", prop, j.Name, j.Disagreements))
 			inconclusive = append(inconclusive, map[string]string{"harness": j.Name, "reason": "solver disagreement"})
 		}
-		if len(j.Reached) == 0 {
-			vacuous++
-			lines = append(lines, fmt.Sprintf("INCONCLUSIVE property=%s harness=%s vacuous: no Reach label was hit on a feasible path", prop, j.Name))
-			inconclusive = append(inconclusive, map[string]string{"harness": j.Name, "reason": "vacuous"})
-		}
 		for l := range j.Reached {
 			hs.Reached = append(hs.Reached, l)
 		}
@@ -358,6 +353,34 @@ func report(prop, tier string, seed int, jobs []*Job, rep *replayer, P *Program,
 				if o.Discharged == 0 {
 					concrete++
 				}
+			}
+		}
+		if len(j.Reached) == 0 {
+			// every path ended in a panic/deadlock/fatal site that is a listed known finding:
+			// the end of the harness is unreachable because of that finding, not vacuously
+			blocked := j.Paths > 0
+			for k, n := range j.Ends {
+				if n > 0 && k != "panic" && k != "deadlock" && k != "fatal" {
+					blocked = false
+				}
+			}
+			nk := 0
+			for _, l := range labels {
+				if o := j.Obligs[l]; o.Violation != nil && (strings.HasPrefix(l, "panic@") || strings.HasPrefix(l, "deadlock/") || strings.HasPrefix(l, "fatal@")) {
+					if hitKF[j.Name+"/"+l] {
+						nk++
+					} else {
+						blocked = false
+					}
+				}
+			}
+			if blocked && nk > 0 {
+				lines = append(lines, fmt.Sprintf("NOTE property=%s harness=%s end of harness not reached: every path ends in a listed known finding", prop, j.Name))
+				hs.Reached = append(hs.Reached, "(blocked by known finding)")
+			} else {
+				vacuous++
+				lines = append(lines, fmt.Sprintf("INCONCLUSIVE property=%s harness=%s vacuous: no Reach label was hit on a feasible path", prop, j.Name))
+				inconclusive = append(inconclusive, map[string]string{"harness": j.Name, "reason": "vacuous"})
 			}
 		}
 		// witnesses: translator validation
